@@ -365,6 +365,24 @@ func runC07(t *testing.T, seed int64, n int, out *Out) {
 				}
 			}
 		}
+		// sometimes wind the vault down completely (supply back to 0, rounding dust may stay in TotalValue)
+		// and start it again: the zero-supply special case of GetRedemptionRate with TotalValue != 0
+		if r.Intn(4) == 0 {
+			for _, u := range []int{1, 2, 0} {
+				if h := held(users[u]); h.IsPositive() {
+					doUnbond(u, h, nil)
+				}
+			}
+			if app.BankKeeper.GetSupply(ctx, shareDenom).Amount.IsZero() {
+				stats["wind-down/empty"]++
+				if !k.GetParams(ctx).TotalValue.IsZero() {
+					stats["wind-down/empty-with-dust"]++
+				}
+			}
+			doBond(1, bondAmount(), nil)
+			doBond(2, bondAmount(), nil)
+			doUnbond(1, unbondAmount(1), nil)
+		}
 		// bucket statistics: final rate class and size class
 		fr := k.GetRedemptionRate(ctx)
 		switch {
